@@ -17,6 +17,74 @@ FRAMING_NAMES = {
 }
 
 
+def generated_pairs(rng, tier):
+    """objects of the text-field classes built by harness/gen_text.py (type-directed generators over the library's own
+    constructors): [(class path, object)]"""
+    try:
+        from harness import gen_text
+    except ImportError:
+        return []
+    classes = gen_text.classes()
+    n = {'quick': 12, 'thorough': 300}[tier]
+    out = []
+    for name, gen in gen_text.GENERATORS:
+        cls = classes.get(name)
+        if cls is None:
+            continue
+        for _ in range(n):
+            try:
+                obj = gen(rng)
+            except Exception:  # pylint: disable=broad-except
+                continue
+            if type(obj) is not cls and not isinstance(obj, cls):  # pylint: disable=unidiomatic-typecheck
+                continue
+            out.append((corpus.class_path(type(obj)), obj))
+    return out
+
+
+def _work_object(task):
+    """C01 on a constructed object, C05 on its composition"""
+    cls_path, obj, want = task
+    from harness import gen_text
+    cls = corpus.resolve(cls_path)
+    name = cls.__name__
+    out = []
+    ambiguous = gen_text.is_ambiguous(obj)
+    try:
+        data = bytes(obj.compose())
+    except Exception as exc:  # pylint: disable=broad-except
+        data = None
+        if 'C01' in want and not ambiguous:
+            out.append(('compose:{}:{}'.format(name, type(exc).__name__),
+                        '{}: compose() of a constructed object raised {} [{}]'.format(name, core.err_line(exc), canon.generic(obj)[:300]),
+                        {'kind': 'textobj', 'cls': cls_path, 'repr': canon.generic(obj)[:1500]}))
+    if data is None:
+        return out, 1
+    case = {'kind': 'corpus', 'cls': cls_path, 'data': hx(data), 'want': list(want), 'constructed': canon.generic(obj)[:1500]}
+    if 'C01' in want:
+        bad, _ = clsops.check_object(obj)
+        if any(key.startswith('parse:') for _p, key, _m in bad):
+            # a header line is delimited by the CRLF that FOLLOWS it: its own composition parses only with that lookahead
+            try:
+                back, n = cls.parse_immutable(data + b'\r\n')
+                if n == len(data) and canon.generic(back) == canon.generic(obj):
+                    bad = [('C01', 'needs-crlf:' + name, '{}: own composition {!r} is accepted only when CRLF follows it'.format(
+                        name, data[:80]))]
+            except Exception:  # pylint: disable=broad-except
+                pass
+        for _prop, key, msg in bad:
+            if ambiguous and not key.startswith('needs-crlf:'):
+                key = 'unrepresentable-value:' + name
+                msg = msg + ' (the object carries a value the text spelling cannot represent)'
+            out.append((key, msg, case))
+    if 'C05' in want:
+        for key, msg in evaluate(cls, data, ('C05',), False):
+            if ambiguous:
+                key = 'unrepresentable-value:' + name
+            out.append((key, msg, case))
+    return out, 1
+
+
 def _work(task):
     """one corpus pair in a worker process: the input and all its mutations -> [(key, message, case)]"""
     cls_path, data, want, framing, muts = task
@@ -55,12 +123,19 @@ def run(run, want, tier):
             if 'C02' in want or 'C03' in want:
                 muts = muts + structured_mutations(data, tier)
         tasks.append((corpus.class_path(cls), data, tuple(want), name in FRAMING_NAMES, muts))
+    otasks = []
+    if 'C01' in want or 'C05' in want:
+        otasks = [(path, obj, tuple(want)) for path, obj in generated_pairs(rng, tier)]
+        for path, _obj, _want in otasks:
+            classes.add(path.split(':')[-1])
     workers = max(1, min(16, int(os.environ.get('VERIF_JOBS', '0')) or (os.cpu_count() or 4)))
     if workers > 1 and len(tasks) > 8:
         with multiprocessing.get_context('fork').Pool(workers) as pool:
             results = pool.map(_work, tasks, chunksize=4)
+            results += pool.map(_work_object, otasks, chunksize=8)
     else:
-        results = [_work(t) for t in tasks]
+        results = [_work(t) for t in tasks] + [_work_object(t) for t in otasks]
+    run.count('corpus', 'generated_text_objects', len(otasks))
     for found, n in results:          # in corpus order: the report does not depend on scheduling
         run.evaluations += n
         for key, msg, case in found:
